@@ -2,6 +2,7 @@ import Pyxv.Model.Rows
 import Pyxv.Model.Refs
 import Pyxv.Model.Controls
 import Pyxv.Model.Headers
+import Pyxv.Model.Xml
 /-!
 # Choices: choice lists, select wiring, secondary instances, itemsets CSV  (property C09)
 
@@ -537,6 +538,28 @@ def emitInsts : List Inst → List Inst → Option (List Inst)
     match findSeen i.name seen with
     | some prior => if prior.src ≠ i.src then none else emitInsts seen rest
     | none => (emitInsts (i :: seen) rest).map (i :: ·)
+
+/-! ### rendering: the DOM elements of the instances (`Pyxv.Xml`) -/
+
+/-- `node("instance", …, id=…, src=…)` / `node("instance", node("root", item…), id=…)` (survey.py 370-425) -/
+def instNode (i : Inst) : Xml.Node :=
+  match i.src with
+  | some u => .elem c!"instance" [(c!"id", i.name), (c!"src", u)] []
+  | none => .elem c!"instance" [(c!"id", i.name)]
+      [.elem c!"root" [] (i.items.map fun it => .elem c!"item" [] (it.map fun kv => .elem kv.1 [] [.text false kv.2]))]
+
+/-- the `id` of an `<instance>` element -/
+def instanceId : Xml.Node → Option Str
+  | .elem t a _ => if t = c!"instance" then lookup c!"id" a else none
+  | .text _ _ => none
+
+/-- ids of the `<instance id=…>` children of an element, in document order -/
+def instanceIds : Xml.Node → List Str
+  | .elem _ _ ks => ks.filterMap instanceId
+  | .text _ _ => []
+
+/-- the text `Survey._to_ugly_xml` writes for one instance element -/
+def instText (i : Inst) : Str := Xml.render [] [] [] (instNode i)
 
 /-! ## 8. itemsets CSV -/
 
